@@ -1,7 +1,7 @@
 (* C05 — optimize never changes what a validated expression evaluates to. Property theorems only; proofs in OptFacts.v / Generic.v.
    optimize_t and eval_t are the very constants that are extracted and run against the crate. *)
 Require Import ZArith NArith Bool List Arith. Import ListNotations.
-Require Import F64 Dec Types Generic Lang Opt IO OptFacts WalkTypes WalkRead GenOptArms OptTab.
+Require Import F64 Dec Types Generic Lang Opt IO OptFacts OptFacts5 WalkTypes WalkRead GenOptArms OptTab.
 
 (* value preservation, for every environment, every fuel (success, error midway, even exhaustion), every accumulator *)
 Theorem C05_value : forall E, call_no_undef E -> std_if_then_env E ->
@@ -14,6 +14,17 @@ Theorem C05_exact : forall E k e acc st e' tr, no_if3 e = true -> optimize_t E k
   fst (eval_t E e') = fst (eval_t E e) /\ no_if3 e' = true.
 Proof. exact result_preserved. Qed.
 Print Assumptions C05_exact.
+
+(* ... at full strength: the tree optimized under ONE environment evaluates like the original under EVERY variable binding, defined or not - under any environment
+   with the same functions; indeed the optimizer's output does not depend on the bindings at all *)
+Theorem C05_exact_under_every_binding : forall E E' k e acc st e' tr, same_functions E E' -> no_if3 e = true -> optimize_t E k e acc = (st, e', tr) ->
+  fst (eval_t E' e') = fst (eval_t E' e).
+Proof. exact exact_under_every_binding. Qed.
+Theorem C05_optimize_ignores_bindings : forall E E' k e acc, same_functions E E' -> fst (optimize_t E k e acc) = fst (optimize_t E' k e acc).
+Proof. exact optimize_ignores_bindings. Qed.
+Example C05_same_functions_inhabited : forall vars vars' fns, same_functions (mk_env vars fns) (mk_env vars' fns).
+Proof. intros. split; intros; reflexivity. Qed.
+Print Assumptions C05_exact_under_every_binding.
 
 (* one folding pass, including the partially rewritten tree it leaves behind on an error, never changes the result *)
 Theorem C05_fold_exact : forall E e, fst (eval_t E (snd (fst (fst (fold_t E e))))) = fst (eval_t E e).
